@@ -11,6 +11,27 @@ COMMON_NOTE = ("Trusted: Coq 8.16.1 kernel incl. vm_compute (no native_compute, 
                "generators and spec oracles; /venv python 3.12. ")
 
 CHECKS = {
+    "C01": {
+        "text": ("Theorems for every outcome type with a decidable total order and every operator (an arbitrary function): "
+                 "the count of z in a op b is the sum of a[x]*b[y] over pairs with x op y = z; total = product; scalar and "
+                 "unary forms relabel with colliding counts added and the total preserved; an exception is raised exactly "
+                 "when some pair of the support product raises; scaling and zero-count faces change nothing beyond the "
+                 "formula; results depend on operands only as count functions. Correspondence ties operator dispatch "
+                 "(map/rmap/umap, reflected forms, pool flattening, comparators, within/vs) and Python's operator "
+                 "semantics on int/Fraction outcomes to the code."),
+        "note": "Python operator semantics are modelled by tables on exact rationals; inexact float results are outside the model (skipped and counted); axioms: none.",
+        "design": "5/C01",
+    },
+    "C02": {
+        "text": ("Theorem rwc = brute force for all pools (homogeneous, grouped, heterogeneous; zero-count faces) and all "
+                 "selections (indexes, negative indexes, slices with any step, repeats), proved for every strategy the code "
+                 "dispatches to: Karonen partial selection from either end with its numerator/denominator bookkeeping, "
+                 "grouped heterogeneous merge with padding, full enumeration; counts sum to the total; empty selection "
+                 "yields nothing; IndexError surfaces. Correspondence runs the same Gallina functions against "
+                 "P.rolls_with_counts on generated pools x selections."),
+        "note": "math.comb = Pascal binomial; sorted = insertion sort; +/-inf padding modelled by an arbitrary filler; memo cache excluded (C13); axioms: none.",
+        "design": "5/C02",
+    },
     "C18": {
         "text": ("Theorems (all inputs, any outcome type with a decidable total order): a successful draw changes "
                  "exactly the requested counts, keeps every outcome, leaves no negative count and moves the total by the "
